@@ -117,6 +117,23 @@ func c11Run(c c11Case) []*core.Violation {
 				out, rerr = io.ReadAll(r)
 			}
 			rd = r
+		case "readercopy":
+			// a consumer that reads a prefix with Read and hands the rest to io.Copy (which prefers an
+			// io.WriterTo if the Reader has one), the way net/mail.ReadMessage + io.Copy(dst, m.Body) does
+			r := m.NewReader()
+			rerr = r.Error()
+			if rerr == nil {
+				prefix := make([]byte, op.K)
+				n, perr := io.ReadFull(r, prefix)
+				if perr != nil && perr != io.EOF && perr != io.ErrUnexpectedEOF {
+					rerr = perr
+				} else {
+					var rest bytes.Buffer
+					_, rerr = io.Copy(&rest, r)
+					out = append(prefix[:n], rest.Bytes()...)
+				}
+			}
+			rd = r
 		case "updatereader":
 			if rd == nil {
 				rd = m.NewReader()
@@ -324,7 +341,7 @@ func c11Gen(t *rapid.T) c11Case {
 	c := c11Case{Spec: *spec, Sign: sign}
 	nOps := rapid.IntRange(2, 5).Draw(t, "nops")
 	// every case renders at least 4 times so that map-order dependent differences show
-	kinds := []string{"writeto", "write", "reader", "updatereader", "partialupdate", "tofile", "totmp", "failsink", "failprod", "send", "send"}
+	kinds := []string{"writeto", "write", "reader", "readercopy", "updatereader", "partialupdate", "tofile", "totmp", "failsink", "failprod", "send", "send"}
 	usedFailProd := false
 	for i := 0; i < nOps; i++ {
 		k := rapid.SampledFrom(kinds).Draw(t, "op")
@@ -334,6 +351,8 @@ func c11Gen(t *rapid.T) c11Case {
 			op.K = rapid.IntRange(0, 1500).Draw(t, "sinkoffset")
 		case "partialupdate":
 			op.K = rapid.SampledFrom([]int{0, 1, 15, 100, 400, 1000, 5000}).Draw(t, "partialread")
+		case "readercopy":
+			op.K = rapid.SampledFrom([]int{1, 15, 100, 512, 4096}).Draw(t, "readprefix")
 		case "tofile":
 			op.K = rapid.SampledFrom([]int{0, 0, 1, 40, 4000}).Draw(t, "existingfile")
 		case "failprod":
@@ -372,7 +391,7 @@ func c11Gen(t *rapid.T) c11Case {
 func TestC11(t *testing.T) {
 	rec := core.Rec("C11")
 	rec.Rule = "rapid draws a message program (0..3 parts, 0..2 embeds, 0..3 attachments; all file sources incl. read-seekers, files on disk, fs.FS, templates and custom writers; file encodings default/base64/8bit/7bit; 0..3 preformatted and 0..3 generic headers; Date/Message-ID/boundaries left to first use; one program in six carries a middleware that rewrites the first body part or the subject on every render) " +
-		"and a history of 4..5 render operations over {WriteTo, Write, NewReader, UpdateReader (also of a reader that was only partly read), WriteToFile (also onto an existing, longer file), WriteToTempFile, Send to the reference server (payload after dot-unstuffing), render into a sink failing at a drawn offset, render with one producer failing on exactly that invocation}; one history in five is S/MIME-signed (ECDSA or RSA). " +
+		"and a history of 4..5 render operations over {WriteTo, Write, NewReader (read to the end, or a prefix through Read and the rest through io.Copy), UpdateReader (also of a reader that was only partly read), WriteToFile (also onto an existing, longer file), WriteToTempFile, Send to the reference server (payload after dot-unstuffing), render into a sink failing at a drawn offset, render with one producer failing on exactly that invocation}; one history in five is S/MIME-signed (ECDSA or RSA). " +
 		"Oracle: every successful output is byte-identical to the first successful one (Send: modulo what DATA does to any content, bare LF -> CRLF and a final CRLF; signed messages: identical top-level fields with the per-render outer boundary masked and an identical signed entity). Non-trivial: >= 1 file or >= 2 parts, and two different output paths or a failed render in the history; distinct by (shape key, op sequence)."
 	rec.Assumptions = []string{"a sink offset beyond the output length is a successful render (not compared)", "a transmitted copy is never used as the reference (transport normalisation is lossy)", "signed histories use canonical CRLF content"}
 	core.Prop[c11Case]{ID: "C11", Test: "TestC11", Gen: c11Gen, Run: c11Run}.Check(t)
